@@ -121,7 +121,7 @@ def parseOp (s : St) (toks : List String) : Option Op :=
   | "start" => some .start
   | "stop" => some .stop
   | "verify" => some .verify
-  | "obs" | "announce" | "diskcheck" | "magnet" | "crashcheck" | "reload" | "addtracker" => some .nop
+  | "obs" | "announce" | "diskcheck" | "magnet" | "crashcheck" | "reload" | "addtracker" | "dialhold" => some .nop
   | "persist" => some .persist
   | "waitstop" => some .waitstop
   | "trk" => some (.trk [])
@@ -180,10 +180,13 @@ structure DSt where
   /-- the implementation could not listen on the peer port in this run (taken by another process: environment);
   the model's `acceptor` follows the implementation, but the periodical announcers run all the same -/
   noListen : Bool := false
+  /-- `dialhold` was used in this case: outgoing dials to peers that never answer are not modelled; the dial
+  counter is taken from the implementation from then on (the handshaker and address counts are echoed anyway) -/
+  looseDials : Bool := false
   parked : Parked := none
 
 def renderObs (s : St) (verdict : String) (outs : List Out) (impl : List (String × String))
-    (dlTok : String) (ntrk : Nat := 0) (anns : List String := []) (noListen : Bool := false) : String :=
+    (dlTok : String) (ntrk : Nat := 0) (anns : List String := []) (noListen : Bool := false) (extraCips : List String := []) : String :=
   let pred (k : String) (v : String) : String :=
     match k with
     | "st" => s.status.str
@@ -212,7 +215,7 @@ def renderObs (s : St) (verdict : String) (outs : List Out) (impl : List (String
     | "peers" => joinOrDash (s.peers.map fun p => toString p.k)
     | "npeers" => toString s.peers.length
     | "banned" => joinOrDash (sortStrings s.banned)
-    | "cips" => joinOrDash (sortStrings (s.peers.map (·.ip)))
+    | "cips" => joinOrDash (sortStrings (s.peers.map (·.ip) ++ extraCips))
     | "info" => boolStr s.info
     | "open" => toString (s.openFiles.length + s.leaked)
     | "workers" =>
@@ -297,7 +300,10 @@ def oracles (prev s : St) (impl : List (String × String)) (prevDials : Nat := 0
     (if st = "Seeding" && !(bfBits.all id && !bfBits.isEmpty) then ["C04 seeding-without-all-pieces"] else []) ++
     (if st = "Stopped" && get "npeers" ≠ "0" then ["C04 stopped-with-peers"] else []) ++
     (if st = "Stopped" && get "open" ≠ "0" then [s!"C04 stopped-with-open-files open={get "open"}"] else []) ++
-    (if st = "Stopped" && get "dl" ≠ "-" then ["C04 stopped-with-downloads"] else [])
+    (if st = "Stopped" && get "dl" ≠ "-" then ["C04 stopped-with-downloads"] else []) ++
+    (if st = "Stopped" && get "cips" ≠ "" && get "cips" ≠ "-" then [s!"C04 stopped-with-connected-ips cips={get "cips"}"] else []) ++
+    (if st = "Stopped" && get "hs" ≠ "" && get "hs" ≠ "0/0" then [s!"C04 stopped-with-pending-handshakes hs={get "hs"}"] else []) ++
+    (if st = "Stopped" && get "addrs" ≠ "" && get "addrs" ≠ "0" then [s!"C04 stopped-with-queued-addresses addrs={get "addrs"}"] else [])
   -- C06: an info dictionary received from peers is held to the session's piece-count limit like any other
   let c06 := if !s.infoAtAdd && s.cfg.n > s.cfg.maxPieces && get "info" = "1"
     then [s!"C06 metadata-over-piece-limit-accepted pieces={s.cfg.n} limit={s.cfg.maxPieces}"] else []
@@ -434,6 +440,8 @@ def stepDriver (d : DSt) (op implObs : String) : DSt × String × List String :=
         ++ errs.map (fun e => "C10 download-progress-diverged " ++ e.replace " " "_")
         ++ errsI.map (fun e => "C13 metadata-download-inadmissible " ++ e.replace " " "_")
       let implDials := (((impl.find? fun (k, _) => k = "dials").bind fun (_, x) => x.toNat?)).getD d.implDials
+      let looseDials := d.looseDials || toks.headD "" = "dialhold"
+      let st2 := if looseDials then { st2 with dials := implDials } else st2
       -- announces the stub trackers must have received in this op, with the identity they must carry
       let ident := (if st2.cfg.isPrivate && st2.infoAtAdd then "priv:priv" else "pub:pub") ++ ":ok"
       -- a tracker added while the announcers run gets its own announcer at once (`started`); added to a stopped
@@ -485,8 +493,14 @@ def stepDriver (d : DSt) (op implObs : String) : DSt × String × List String :=
         (if toks.headD "" = "waitstop" && sws && implSt = "Stopped" && st2.status ≠ .stopped then ["C04 start-dropped-while-stopping"] else []) ++
         (if vp && (implSt = "Downloading" || implSt = "Seeding") then [s!"C04 verification-request-did-not-end-stopped st={implSt}"] else [])
       let sws := if toks.headD "" = "waitstop" then false else sws
-      ({ s := some st2, parked := parked, implDials := implDials, knownPeers := known, trk := trk, startWhileStopping := sws, verifyPending := vp, noListen := noListen },
-        renderObs st2 r.verdict outs1 impl dlTok trk.ntrk anns noListen, viol ++ annViol ++ c04trk)
+      ({ s := some st2, parked := parked, implDials := implDials, knownPeers := known, trk := trk, startWhileStopping := sws, verifyPending := vp, noListen := noListen, looseDials := looseDials },
+        renderObs st2 r.verdict outs1 impl dlTok trk.ntrk anns noListen
+          -- the IPs of pending outgoing handshakes to the hold sink (not modelled) count as connected while the
+          -- torrent runs; a stopped torrent has none
+          (if looseDials && !(quietSt st2) then
+            (commaList (((impl.find? fun (k, _) => k = "cips").map (·.2)).getD "-")).filter (fun ip => ip.startsWith "127.0.1." && !(st2.peers.any (·.ip = ip)))
+           else []),
+        viol ++ annViol ++ c04trk)
 
 def mkSuite (name : String) : Suite where
   name := name
